@@ -11,6 +11,7 @@ import (
 	"errors"
 	"fmt"
 	"io"
+	"math"
 	"reflect"
 	"strings"
 	"testing"
@@ -77,9 +78,11 @@ func genScript(rt *rapid.T, allowNoWait bool) Script {
 	n := rapid.IntRange(1, 40).Draw(rt, "n")
 	calls := 0
 	for i := 0; i < n; i++ {
-		kinds := []string{"call", "call", "call", "relwrite", "relwrite", "relwrite", "respond", "respond", "respond", "cancel", "sleep", "readfail", "close", "failwrites"}
+		kinds := []string{"call", "call", "badcall", "relwrite", "relwrite", "relwrite", "respond", "respond", "respond", "cancel", "sleep", "readfail", "close", "failwrites"}
 		if calls >= 12 {
 			kinds = kinds[3:]
+		} else {
+			kinds = append(kinds, "call")
 		}
 		e := Event{Kind: rapid.SampledFrom(kinds).Draw(rt, "kind")}
 		switch e.Kind {
@@ -110,6 +113,13 @@ func genScript(rt *rapid.T, allowNoWait bool) Script {
 		s.Events = append(s.Events, e)
 	}
 	return s
+}
+
+// badRec is a call that cannot be encoded: it must fail at once, exactly once, and leave the session intact.
+type badRec struct {
+	done      chan struct{}
+	err       error
+	completed int
 }
 
 // callRec is the harness' record of one outgoing call.
@@ -147,6 +157,9 @@ type world struct {
 	res           *vt.Result
 
 	doCall func(ctx context.Context, k int) (json.RawMessage, error)
+	// doBad issues a call whose parameters cannot be encoded as JSON (a NaN): it never reaches the wire.
+	doBad  func(ctx context.Context) error
+	bad    []*badRec
 	wait   func() error
 	closeS func() error
 }
@@ -251,6 +264,10 @@ func runInBubble(s Script) (res vt.Result) {
 			b, _ := json.Marshal(r.StructuredContent)
 			return b, nil
 		}
+		w.doBad = func(ctx context.Context) error {
+			_, err := cs.CallTool(ctx, &mcp.CallToolParams{Name: "t", Arguments: map[string]any{"k": math.NaN()}})
+			return err
+		}
 		w.wait, w.closeS = cs.Wait, cs.Close
 	default:
 		server := mcp.NewServer(&mcp.Implementation{Name: "s", Version: "1"}, nil)
@@ -266,6 +283,10 @@ func runInBubble(s Script) (res vt.Result) {
 			}
 			b, _ := json.Marshal(r.Meta["p"])
 			return b, nil
+		}
+		w.doBad = func(ctx context.Context) error {
+			_, err := ss.ListRoots(ctx, &mcp.ListRootsParams{Meta: mcp.Meta{"k": math.NaN()}})
+			return err
 		}
 		w.wait, w.closeS = ss.Wait, ss.Close
 	}
@@ -335,6 +356,15 @@ func runInBubble(s Script) (res vt.Result) {
 				c.startedAfterDone = true
 			}
 			desc.WriteString("C")
+		case "badcall":
+			b := &badRec{done: make(chan struct{})}
+			w.bad = append(w.bad, b)
+			go func() {
+				b.err = w.doBad(context.Background())
+				b.completed++
+				close(b.done)
+			}()
+			desc.WriteString("B")
 		case "relwrite":
 			pend := w.unreleased()
 			if len(pend) == 0 {
@@ -578,6 +608,16 @@ func (w *world) checkQuiescent(step int, isDone func(*callRec) bool) {
 			parked[r.ID] = true
 		}
 	}
+	for i, b := range w.bad {
+		select {
+		case <-b.done:
+			if b.err == nil {
+				w.res.Failf("after step %d: unencodable call %d (NaN parameter) returned without an error", step, i)
+			}
+		default:
+			w.res.Failf("after step %d: unencodable call %d (NaN parameter, live context) has not returned", step, i)
+		}
+	}
 	for _, c := range w.calls {
 		done := isDone(c)
 		writeParked := c.id != nil && parked[*c.id]
@@ -658,7 +698,7 @@ func finish(res vt.Result, desc *strings.Builder, nt bool, w *world) vt.Result {
 	res.Desc = w.s.Side + fmt.Sprint(w.s.Gate) + desc.String()
 	res.NonTrivial = nt
 	d := desc.String()
-	for _, c := range []struct{ sub, class string }{{"!", "response_before_write_release"}, {"E", "reader_failure"}, {"K", "close"}, {"wb", "write_broken"}, {"wr", "write_rejected"}, {"x", "cancel"}, {"rt", "wrong_id_type"}, {"F", "fail_all_writes"}} {
+	for _, c := range []struct{ sub, class string }{{"!", "response_before_write_release"}, {"E", "reader_failure"}, {"K", "close"}, {"wb", "write_broken"}, {"wr", "write_rejected"}, {"x", "cancel"}, {"rt", "wrong_id_type"}, {"F", "fail_all_writes"}, {"B", "unencodable_call"}} {
 		if strings.Contains(d, c.sub) {
 			res.Class(c.class)
 		}
